@@ -84,7 +84,24 @@ int main (void)
                 i ? "," : "", modes[i], rc, (int) q.utf8, a, u, q.errcode);
         eav_free (&q);
     }
-    printf ("\n ]\n}\n");
+    printf ("\n ],\n");
+
+    /* the bytes each local-part scanner refuses as "special" outside quotes: probed on the compiled code
+     * ("a<c>b@"), so that the order and the spelling of the `case` labels do not matter */
+    printf (" \"specials\": {");
+    struct { const char *n; int (*f) (const char *, const char *); } sc[] = {
+        { "src/is_822_local.c", is_822_local }, { "src/is_5321_local.c", is_5321_local },
+        { "src/is_5322_local.c", is_5322_local }, { "src/is_6531_local.c", is_6531_local } };
+    for (size_t i = 0; i < 4; i++) {
+        printf ("%s\n  \"%s\": [", i ? "," : "", sc[i].n);
+        int firsts = 1;
+        for (int c = 1; c < 128; c++) {
+            char buf[5] = { 'a', (char) c, 'b', '@', 0 };
+            if (sc[i].f (buf, buf + 3) == -EEAV_LPART_SPECIAL) { printf ("%s%d", firsts ? "" : ", ", c); firsts = 0; }
+        }
+        printf ("]");
+    }
+    printf ("\n }\n}\n");
     free (p);
     return 0;
 }
